@@ -47,7 +47,12 @@ def mk_type(t, fresh=False):
             return Union[tuple(None if o == 'none' else mk_type(o, True) for o in t[1:])]
         if k == 'cont':
             _cont_counter[0] += 1
-            return type('Rec%d' % (_cont_counter[0] % 3), (Container,), {'__annotations__': {'f%d' % i: mk_type(ft, True) for i, ft in enumerate(t[1:])}})
+            import hashlib as _h
+
+            def shape(q):
+                return q if isinstance(q, str) else '(' + q[0] + ''.join(' ' + shape(z) for z in q[1:] if not isinstance(z, int)) + ')'
+            return type('Rec%d' % (int(_h.sha1(shape(t).encode()).hexdigest(), 16) % 4), (Container,),
+                        {'__annotations__': {'f%d' % i: mk_type(ft, True) for i, ft in enumerate(t[1:])}})
     if key in _type_cache:
         return _type_cache[key]
     if isinstance(t, str):
@@ -85,6 +90,10 @@ def mk_container(t, key):
     import hashlib as _h
     _cont_counter[0] += 1
     n = len(t) - 1
+
+    def shape(q):
+        return q if isinstance(q, str) else '(' + q[0] + ''.join(' ' + shape(z) for z in q[1:] if not isinstance(z, int)) + ')'
+    shape_name = 'Rec%d' % (int(_h.sha1(shape(t).encode()).hexdigest(), 16) % 4)
     names = ['f%d' % i for i in range(n)]
     types = [mk_type(ft) for ft in t[1:]]
     hv = int(_h.sha1(key.encode()).hexdigest(), 16)
@@ -111,10 +120,10 @@ def mk_container(t, key):
                 f()
             except Exception:
                 pass
-        return type('Rec%d' % (_cont_counter[0] % 3), (Base,), {'__annotations__': derived_ann})
+        return type(shape_name, (Base,), {'__annotations__': derived_ann})
     # (only a handful of distinct class NAMES are used, as code bases with several forks / modules do: a cache keyed by the
     # printed type name must not confuse them)
-    return type('Rec%d' % (_cont_counter[0] % 3), (Container,), {'__annotations__': dict(zip(names, types))})
+    return type(shape_name, (Container,), {'__annotations__': dict(zip(names, types))})
 
 
 def kind(t):
@@ -408,6 +417,8 @@ def mutate_somehow(t, y):
     k = kind(t)
     for f in ((lambda: y.pop()) if k in ('list', 'bl') else None,
               (lambda: y.append(y[0])) if k in ('list', 'bl') else None,
+              (lambda: y.append(mk_type(t[1]).default(None))) if k == 'list' else None,
+              (lambda: y.append(True)) if k == 'bl' else None,
               (lambda: y.__setitem__(0, type(y[0]).default(None) if hasattr(type(y[0]), 'default') else y[0])) if k in ('vec', 'list') else None,
               (lambda: y.__setitem__(0, not y[0])) if k in ('bv', 'bl') else None,
               (lambda: setattr(y, 'f0', mk_type(t[1]).default(None))) if k == 'cont' else None,
@@ -458,6 +469,21 @@ def run_val(t, v):
 
     if not isinstance(t, str):
         put('p.eqfresh', E(lambda: fresh_class_agreement(t, x)))
+
+    def roiter2():
+        if kind(t) not in ('vec', 'list') or not hasattr(x, 'readonly_iter'):
+            return '1'
+        it1, it2 = x.readonly_iter(), x.readonly_iter()
+        next(it2, None)
+        got, want = [], []
+        for i in range(len(x)):
+            e1 = next(it1)
+            e2 = next(it2, None)
+            got.append((to_val(t[1], e1), None if e2 is None else to_val(t[1], e2)))
+            want.append((to_val(t[1], x[i]), None if i + 1 >= len(x) else to_val(t[1], x[i + 1])))
+        return '1' if got == want else '0'
+    if not isinstance(t, str):
+        put('p.roiter2', E(roiter2))
 
     def seqmixin():
         # the Sequence mix-in read paths: reversed(), `in`, index(), count() against indexing
@@ -582,6 +608,12 @@ def run_val(t, v):
             mutate_somehow(st, w)
         y = T.from_obj(o)
         z = T.from_obj(json.loads(json.dumps(o)))
+        # copies of sub-values are the caller's to mutate as well: the untouched value still exports the same object
+        for st, sx in sub_values(t, x, 2)[:8]:
+            if isinstance(sx, View) and not isinstance(sx, (BasicView, bytes)):
+                mutate_somehow(st, sx.copy())
+        if json.dumps(x.to_obj()) != json.dumps(o):
+            return 'EXPORT-CHANGED-BY-MUTATING-A-COPY'
         return '%s/%s' % (y.hash_tree_root().hex(), z.hash_tree_root().hex())
     put('p.obj2', E(obj2))
     put('p.objjson', E(lambda: json.dumps(x.to_obj(), separators=(',', ':'))))
@@ -652,6 +684,22 @@ def run_tsize(t):
     out.append('p.min=%s' % E(lambda: str(T.min_byte_length())))
     out.append('p.max=%s' % E(lambda: str(T.max_byte_length())))
     return ';'.join(out)
+
+
+def run_tnav(t):
+    """the default tree of a (possibly astronomically long) vector type is navigable at its first, middle and last
+    element positions, and the nodes found there are the element type's default / the zero chunk"""
+    T = mk_type(t)
+    n = int(t[2])
+    E_ = mk_type(t[1])
+    flags = []
+    for i in sorted({0, 1 if n > 1 else 0, n // 2, n - 2 if n > 1 else 0, n - 1}):
+        def probe():
+            node = T.default_node().getter(T.key_to_static_gindex(i))
+            want = E_.default_node().merkle_root() if not isinstance(t[1], str) else b'\x00' * 32
+            return str(int(node.merkle_root() == want))
+        flags.append(E(probe))
+    return 'p.tnav=%s;p.droot=%s' % (''.join(flags), E(lambda: T.default_node().merkle_root().hex()))
 
 
 def foreign_type(t, v):
@@ -844,11 +892,25 @@ def run_hist(t, v, ops, fresh=False):
     except Exception:
         return 'p.ctor=err'
     put('p.root0', E(lambda: x.hash_tree_root().hex()))
+    elem2 = None
+    if fresh and kind(t) in ('list', 'vec') and not isinstance(t[1], str) and kind(t[1]) == 'cont':
+        # the sequence type is spelled again with a SECOND, separately evaluated element class of the same name and layout
+        # (the cached type above exists already); hashed views of that second class are what `seth` stores
+        try:
+            elem2 = mk_type(t[1], True)
+            x = (List if kind(t) == 'list' else Vector)[elem2, int(t[2])].view_from_backing(x.get_backing())
+        except Exception:
+            elem2 = None
     for k, op in enumerate(ops):
         old_backing = x.get_backing()
         if op[0] in ('seth', 'setv'):
             try:
-                _PREPARED[id(op)] = (prepare_seth if op[0] == 'seth' else prepare_setv)(t, op)   # built and hashed outside the measured section
+                if op[0] == 'seth' and elem2 is not None:
+                    pv_ = elem2.view_from_backing(mk_val(t[1], op[2]).get_backing())
+                    pv_.hash_tree_root()
+                    _PREPARED[id(op)] = pv_
+                else:
+                    _PREPARED[id(op)] = (prepare_seth if op[0] == 'seth' else prepare_setv)(t, op)   # built and hashed outside the measured section
             except Exception:
                 pass
         try:
@@ -1021,6 +1083,18 @@ def run_dec(t, pre, body, post):
     if not post and not pre:
         put('p.decb', E(lambda: to_val(t, T.decode_bytes(body))))
         put('p.decb0', decb0)
+
+    def redec():
+        # every decoded result is the caller's to mutate: mutate it (and some of its sub-values), decode the input again
+        first = to_val(t, y)
+        for st, sx in sub_values(t, y, 2)[:6]:
+            if isinstance(sx, View) and not isinstance(sx, (BasicView, bytes)):
+                mutate_somehow(st, sx)
+        s2 = io.BytesIO(pre + body + post)
+        s2.seek(len(pre))
+        y2 = T.deserialize(s2, len(body))
+        return '1' if to_val(t, y2) == first and y2.encode_bytes() == body else '0:%s' % to_val(t, y2)
+    put('p.redec', E(redec))
     return ';'.join(out)
 
 
@@ -1429,10 +1503,26 @@ def res_str(r):
     return 'plain'   # silently widened to a plain number: never acceptable
 
 
+_SUBCLS = {}
+
+
+def subclass_of(w):
+    if w not in _SUBCLS:
+        from remerkleable.basic import byte
+        _SUBCLS[w] = byte if w == 1 else type('Slot%d' % w, (UINT_BY_W[w],), {})
+    return _SUBCLS[w]
+
+
 def run_uop(op, xw, xv, yw, yv):
     try:
         x = mk_operand(xw, xv)
         y = mk_operand(yw, yv)
+        # client code subclasses the integer types (`class Slot(uint64)`, the library's own `byte`): same width, same
+        # arithmetic, whichever side the subclass instance is on
+        if xw != '-' and (int(xv) + int(yv)) % 3 == 0:
+            x = subclass_of(int(xw))(int(xv))
+        elif yw != '-' and (int(xv) + int(yv)) % 3 == 1 and (int(xv) * 7 + int(yv)) % 2 == 0:
+            y = subclass_of(int(yw))(int(yv))
     except Exception:
         return 'p.r=badoperand'
     return 'p.r=%s' % E(lambda: res_str(PYOPS[op](x, y)))
@@ -1447,6 +1537,8 @@ def run_case(line):
         return run_type(c[1])
     if k == 'tsize':
         return run_tsize(c[1])
+    if k == 'tnav':
+        return run_tnav(c[1])
     if k == 'hist':
         return run_hist(c[1], c[2], c[3:])
     if k == 'histf':
